@@ -251,7 +251,7 @@ pub fn draw_read_plan(rng: &mut Rng, len: usize) -> ReadPlan {
     let adapter = match rng.below(20) {
         0..=7 => ReadAdapter::Direct,
         8..=9 => ReadAdapter::DynRef,
-        10..=16 => ReadAdapter::BufReader { cap: if rng.chance(1, 3) { rng.urange(1, 4) } else { rng.urange(1, 64) } },
+        10..=16 => ReadAdapter::BufReader { cap: match rng.below(8) { 0..=2 => rng.urange(1, 4), 3..=5 => rng.urange(1, 64), 6 => *rng.pick(&[127usize, 128, 4096, 8192]), _ => rng.urange(65, 9000) } },
         _ => ReadAdapter::Chain { split: rng.usize_below(len + 1) },
     };
     let chunks = match rng.below(10) {
@@ -360,7 +360,12 @@ pub fn c06_run(seed: u64, i: u64, mon: &mut Mon, found: &mut Vec<Found>) {
     }
     let mut opts_ix = opts::draw_parse(&mut rng);
     let long = rng.chance(1, 25);
-    let (input, fam) = draw_text(&mut rng, &mut opts_ix, if long { 4096 } else { 512 });
+    let (mut input, fam) = draw_text(&mut rng, &mut opts_ix, if long { 4096 } else { 512 });
+    if rng.chance(1, 400) {
+        // one very long token (lengths around buffer capacities and 16-bit counters)
+        input = text::gen_long_token_text(&mut rng, opts::parse_fields(opts_ix));
+        mon.count("c06.long_token_scenarios");
+    }
     let api = match rng.below(20) {
         0..=6 => Api::Value,
         7..=9 => Api::Datum,
